@@ -55,9 +55,15 @@ def _spec(draw, tier):
         (1, st.tuples(st.just("win_oob"), mi, mi, st.one_of(st.none(), _name())).map(list)),
         # two fresh maps holding the same n names, both added anonymously, one right after the other
         (1, st.tuples(st.just("twins"), mi, st.integers(2, 12), st.sampled_from(["t", "u", "a"])).map(list)),
+        # one window map shared by two parents: added anonymously to a fresh, still empty map that then
+        # grows, and afterwards anonymously to map mi (its names are its own, not the first parent's)
+        (1, st.tuples(st.just("shared"), mi, st.integers(1, 4), st.sampled_from(["s", "a", 0])).map(list)),
     )
     lo = draw(st.integers(3, 30))
-    return {"nmaps": nmaps, "ops": draw(st.lists(op, min_size=lo, max_size=lo + 10))}
+    return {"nmaps": nmaps, "ops": draw(st.lists(op, min_size=lo, max_size=lo + 10)),
+            # per-op spelling of name parts (bit p set: part p is an int/str *subclass* instance that
+            # equals the plain part - IntEnum / bool / str-Enum members)
+            "spell": draw(st.lists(st.sampled_from([0, 0, 0, 0, 1, 2, 3, 5, 7]), min_size=8, max_size=8))}
 
 
 def strategy(tier):
@@ -68,10 +74,35 @@ BAD = {"empty_tuple": (), "empty_str": "", "neg": (-1,), "float": (1.5,), "empty
        "neg_part": ("a", -2), "list": ["a"]}
 
 
-def fresh(name):
-    """The name as a tuple whose integer parts are *new* int objects (CPython shares only small ints;
-    names computed independently at run time are not the same objects)."""
-    return tuple(int(str(x)) if isinstance(x, int) else str(x) + "" for x in name)
+import enum as _enum
+
+_MEMBERS = {}
+
+
+def _member(x):
+    """An enum member (int or str subclass instance) equal to the plain part ``x``."""
+    key = (type(x).__name__, x)
+    if key not in _MEMBERS:
+        if isinstance(x, int):
+            _MEMBERS[key] = bool(x) if x in (0, 1) and len(_MEMBERS) % 2 else _enum.IntEnum(f"Idx{x}", {"M": x}).M
+        else:
+            _MEMBERS[key] = _enum.Enum(f"Part{len(_MEMBERS)}", {"M": x}, type=str).M
+    return _MEMBERS[key]
+
+
+def fresh(name, spell=0):
+    """The name as a tuple whose integer parts are *new* int objects and whose string parts are new
+    str objects (CPython shares only small ints and literals; names computed independently at run
+    time are not the same objects). With ``spell`` some parts are enum members equal to the part."""
+    out = []
+    for p, x in enumerate(name):
+        if (spell >> p) & 1:
+            out.append(_member(x))
+        elif isinstance(x, int):
+            out.append(int(str(x)))
+        else:
+            out.append("".join(list(str(x))))
+    return tuple(out)
 
 
 def conflict(n1, n2):
@@ -95,8 +126,10 @@ def check(spec, stats):
     accepted_first, refused_first = set(), set()
     depth = [0] * n
 
+    spell = spec.get("spell", [0])
     for k, op in enumerate(spec["ops"]):
         where = f"op#{k} {op}"
+        sp = spell[k % len(spell)]
         i = op[1]
         m = maps[i]
         before = [_snapshot(x) for x in maps]
@@ -142,6 +175,41 @@ def check(spec, stats):
                 elif copy == 1 and op[2] >= 9:
                     stats.label("identical_twin_window_refused")
             continue
+        if op[0] == "shared":
+            if frozen[i] or m.addr_width < 16:
+                continue
+            w = MemoryMap(addr_width=3, data_width=8)
+            wnames = [(op[3], "w", kk) for kk in range(op[2])]
+            for nm in wnames:
+                w.add_resource(Res(), name=fresh(nm), size=1)
+            p1 = MemoryMap(addr_width=8, data_width=8)
+            p1.add_window(w)                      # first thing the empty map receives
+            later = [(op[3], "p", 0), ("q",), (1, 1)]
+            for nm in later:
+                p1.add_resource(Res(), name=fresh(nm), size=1)
+            stats.label("window_shared_by_two_parents")
+            for step, (what, names) in enumerate([("win", wnames)] + [("res", [nm]) for nm in later]):
+                conflicts = [(a, b) for a in names for b in visible[i] if conflict(a, b)]
+                before = [_snapshot(x) for x in maps]
+                try:
+                    if what == "win":
+                        m.add_window(w)
+                    else:
+                        m.add_resource(Res(), name=fresh(names[0]), size=1)
+                    ok = True
+                except Exception as e:
+                    ok = False
+                    if [_snapshot(x) for x in maps] != before:
+                        raise Violation("C18/refusal-changed-state", f"{where}: refused call changed state")
+                if ok and conflicts:
+                    raise Violation("C18/conflict-accepted", f"{where} step {step}: {names} accepted although {conflicts}")
+                if not ok and not conflicts:
+                    raise Violation("C18/legal-name-refused", f"{where} step {step}: {what} {names} refused although nothing "
+                                    f"visible in the map conflicts (visible {visible[i]}); the window is shared with "
+                                    f"another parent holding {later}")
+                if ok:
+                    visible[i].extend(tuple(nm) for nm in names)
+            continue
         if op[0] in ("res_oob", "win_oob"):
             oob = 1 << m.addr_width
             try:
@@ -161,7 +229,8 @@ def check(spec, stats):
                 raise Violation("C18/out-of-bounds-accepted", f"{where}: accepted at address {oob:#x}")
             continue
         if op[0] == "res":
-            name = fresh(op[2])
+            name = fresh(op[2], sp)
+            stats.label("enum_typed_part", sp != 0)
             new = [name]
             other_reason = frozen[i]
             call = lambda: m.add_resource(Res(), name=name, size=1)
@@ -169,7 +238,7 @@ def check(spec, stats):
             j = op[2]
             if j <= i:
                 continue
-            name = None if op[3] is None else fresh(op[3])
+            name = None if op[3] is None else fresh(op[3], sp)
             new = list(visible[j]) if name is None else [name]
             other_reason = frozen[i] or j in children[i]
             if name is None:
